@@ -114,6 +114,8 @@ def run_variant(pid, variant, repo):
         expect = variant["expect"]
         if expect == "caught":
             ok = r.returncode == 1
+        elif expect == "undecided":
+            ok = r.returncode == 2
         else:
             ok = r.returncode == 0
         return {"name": variant["name"], "status": "ok" if ok else "MISS", "expect": expect, "exit": r.returncode, "rules": rules[:6],
@@ -141,7 +143,7 @@ def patch_variants(pid):
                     m = json.load(open(meta))
                 except Exception:
                     continue
-                if m.get("property") == pid and m.get("expect_check") in ("caught", "silent") and os.path.isfile(os.path.join(sd, name, "patch.diff")):
+                if m.get("property") == pid and m.get("expect_check") in ("caught", "silent", "undecided") and os.path.isfile(os.path.join(sd, name, "patch.diff")):
                     out.append({"name": "seeded:" + name, "kind": "patch", "patch": os.path.join(sd, name, "patch.diff"), "expect": m["expect_check"]})
     return out
 
@@ -159,7 +161,7 @@ def thorough(ck, variants):
     with ThreadPoolExecutor(max_workers=min(16, max(1, len(allv)))) as ex:
         for r in ex.map(lambda v: run_variant(ck.pid, v, repo), allv):
             results.append(r)
-    caught = [r for r in results if r["status"] == "ok" and r.get("expect") == "caught"]
+    caught = [r for r in results if r["status"] == "ok" and r.get("expect") in ("caught", "undecided")]
     silent = [r for r in results if r["status"] == "ok" and r.get("expect") == "silent"]
     miss = [r for r in results if r["status"] == "MISS"]
     skipped = [r for r in results if r["status"] == "skipped"]
